@@ -378,6 +378,23 @@ void run_case(Choices &c, Ctx &ctx)
 			if (!back || !json_object_equal(back, j))
 				ctx.fail("file-roundtrip", "to_file/from_file round trip differs");
 			json_object_put(back);
+			// rewriting an existing, longer file must leave exactly the new serialisation
+			json_object *big = json_object_new_array();
+			for (size_t i = 0, n = 5 + c.pickn(60); i < n; i++)
+				json_object_array_add(big, json_object_new_string("a long earlier content"));
+			int fl = (int)c.range(0, 15);
+			if (json_object_to_file_ext(path.c_str(), big, fl) != 0 || json_object_to_file_ext(path.c_str(), j, fl) != 0)
+				ctx.fail("to-file", "rewriting a memory file failed: " + last_err());
+			json_object_put(big);
+			std::string raw;
+			char rb[4096];
+			lseek(fd, 0, SEEK_SET);
+			ssize_t rn;
+			while ((rn = __real_read(fd, rb, sizeof rb)) > 0)
+				raw.append(rb, (size_t)rn);
+			std::string want = json_object_to_json_string_ext(j, fl);
+			if (raw != want)
+				ctx.fail("file-rewrite", "after rewriting a longer file the file holds " + str(raw.size()) + " bytes, the serialisation has " + str(want.size()) + ": " + quote(raw, 120));
 			close(fd);
 		}
 		json_object_put(j);
